@@ -148,6 +148,19 @@ def purity(ctx):
         res.ok('R-EFF.pure', ts.fq, f"{n} write effects in the specialised closure: none touches primary state", str(cats))
     res.extra['to_string_write_effects'] = cats
     res.floor('R-EFF.pure write effects examined', n, 5)
+    # plain to_string() / write(path) must be the non-restructuring mode: every default along the chain is False
+    chain = [sm.func('XMLElement', 'to_string', T.M_XMLELEMENT), sm.func('XMLElement', '_final_checks', T.M_XMLELEMENT),
+             sm.func('XMLScorePartwise', 'write', T.M_XMLELEMENT), sm.func('XMLChildContainer', 'get_required_element_names', T.M_CONTAINER),
+             sm.func('XMLChildContainer', 'check_required_elements', T.M_CONTAINER)]
+    for fn in chain:
+        a = fn.node.args
+        names = [x.arg for x in a.posonlyargs + a.args]
+        d = None
+        if 'intelligent_choice' in names:
+            i = names.index('intelligent_choice') - (len(names) - len(a.defaults))
+            d = a.defaults[i] if 0 <= i < len(a.defaults) else None
+        res.check(isinstance(d, ast.Constant) and d.value is False, 'R-EFF.pure', fn.fq, "intelligent_choice defaults to False (a plain call does not restructure)",
+                  fail_detail=f"default: {unparse(d) if d is not None else 'none'}", key=f"R-EFF.pure|default|{fn.qualname}")
     # the same closure with intelligent_choice=True must reach the restructuring (sanity of the specialisation)
     ws_true = specialised_writes(ef, ts, 'intelligent_choice', True)
     prim_true = [1 for r, f_, o in ws_true if state.classify(o.owners if o else (), f_) == 'primary']
